@@ -31,6 +31,8 @@ def describe(tier):
                 "repeated with the first three requirement keys in each of the 5 other orders (first occurrence vs. string vs. numeric order). "
                 f"Flat chains with {LONG[tier]} requirement-key occurrences x operator patterns {LONG_OPS}: 2 or 3 keys cycling under all 3^k assignments, all keys "
                 "distinct under uniform assignments with <= 1 deviation (deviation-bounded). "
+                "Two format versions behind ONE token logic provider whose user-style evaluators answer differently: sequences of four evaluations alternating between the versions, "
+                f"for {len(HIST_SECOND)} expressions x every ordered pair of different assignments. "
                 f"Histories of depth 2: each of {len(HIST_FIRST)} first expressions (valid and invalid) under every assignment through the transformer, "
                 f"the async entry point or the validity check, followed by each of {len(HIST_SECOND)} valid expressions sharing sub-expressions under every "
                 "assignment - the second result must equal the reference. A (expression, assignment) pair is non-trivial if the expression has >= 1 operator and the assignment "
@@ -70,6 +72,9 @@ def plan(tier, seed):
     for L in LONG[tier]:
         for ops in range(len(LONG_OPS)):
             items.append({"fam": "long", "L": L, "ops": ops, "seed": seed})
+    # one provider, two format versions whose evaluators answer differently, evaluations alternate between the versions
+    for e in range(len(HIST_SECOND)):
+        items.append({"fam": "versions", "expr": e, "seed": seed})
     for f in range(len(HIST_FIRST)):
         for op in HIST_OPS:
             items.append({"fam": "history", "first": f, "op": op, "seed": seed})
@@ -214,6 +219,30 @@ def check_history(first, op, a1, second, a2):
     return vs
 
 
+def check_versions(expr, a0, a1):
+    """evaluations of `expr` alternating between two format versions (answers a0 / a1) behind one token logic provider"""
+    from mc import impl_modes as M
+
+    I = X.init()
+    tt = X.parse(expr)[2]
+    hk = R3.keys_of(tt, "hint")
+    seq = (0, 1, 0, 1)
+    res = M.run_versions(lambda: I.requirement_constraint_evaluation(expr), [a0, a1], seq, hints={k: f"Hinweis {k}" for k in hk})
+    out = []
+    for i, (v, r) in enumerate(zip(seq, res)):
+        exp = R3.outcome(R3.state(tt, (a0, a1)[v]))
+        case = {"expr": expr, "versions": [a0, a1], "step": i}
+        if r[0] == "exc":
+            out.append({"kind": "evaluation-raised/two-versions", "case": case, "expected": list(exp), "observed": r[1], "msg": expr})
+            break
+        if (r[1].requirement_constraints_fulfilled, r[1].requirement_is_conditional) != exp:
+            out.append({"kind": "outcome-mapping/two-versions", "case": case, "expected": list(exp),
+                        "observed": [r[1].requirement_constraints_fulfilled, r[1].requirement_is_conditional],
+                        "msg": f"{expr}: evaluation {i + 1} of the sequence {list(seq)} carries format version {v} whose evaluator answers {(a0, a1)[v]}"})
+            break
+    return out
+
+
 def _orders_setup(item):
     import itertools
     import json
@@ -300,6 +329,29 @@ def run_item(item):
             r.traces += 1
         r.sample({"expr": expr[:60] + "...", "L": item["L"]})
         return r
+    if item.get("fam") == "versions":
+        from mc import impl_modes as M
+
+        expr = HIST_SECOND[item["expr"]]
+        keys = R3.keys_of(X.parse(expr)[2], "rc")
+        try:
+            for a0 in X.assignments(keys):
+                for a1 in X.assignments(keys):
+                    if a0 == a1:
+                        continue
+                    vs = check_versions(expr, a0, a1)
+                    r.evaluations += 4
+                    r.states += 4
+                    r.transitions += 4
+                    r.nontrivial += 4
+                    r.stat("two_version_sequences")
+                    for v in vs:
+                        r.violation(v["kind"], v["case"], v["expected"], v["observed"], v["msg"])
+            r.traces += 1
+        finally:
+            M.restore()
+        r.sample({"expr": expr, "versions": 2})
+        return r
     if item.get("fam") == "history":
         first = HIST_FIRST[item["first"]]
         k1 = R3.keys_of(X.parse(first)[2], "rc")
@@ -370,6 +422,13 @@ def replay(case):
         vloop, factory, observe, want, expr, assign = _orders_setup(case["orders"])
         out = observe(vloop.run_schedule(factory, case["choices"]))
         return [] if out == want else [{"kind": "outcome-mapping/completion-order", "case": case, "expected": want, "observed": out}]
+    if "versions" in case:
+        from mc import impl_modes as M
+
+        try:
+            return check_versions(case["expr"], case["versions"][0], case["versions"][1])
+        finally:
+            M.restore()
     if "history" in case:
         return check_history(*case["history"], case["expr"], case["assign"])
     if case.get("mode"):
